@@ -313,11 +313,14 @@ PROGRAM_SETS = {
         [["encrypt", "header_md"], ["encrypt"]],
         [["decaps_empty", "encaps"], ["encaps", "encrypt"]],
         [["encrypt_big"], ["encaps", "header_md"]],
+        [["decaps", "decaps"], ["encaps", "encaps"]],
     ],
     "thorough": [
         [["encrypt_big", "encaps"], ["header_md", "encrypt_big"]],
         [["decaps_empty", "encaps"], ["encaps", "encrypt"]],
         [["decaps_empty"], ["header_md"], ["decaps"]],
+        [["decaps", "decaps"], ["encaps", "encaps"]],
+        [["decaps", "keygen"], ["refresh", "decaps"], ["encaps"]],
         [["encrypt", "encaps"], ["header_md", "keygen"]],
         [["encaps", "decaps"], ["refresh", "encrypt"]],
         [["header_md", "header_md"], ["encrypt", "decaps"]],
@@ -336,7 +339,23 @@ def tla_seq(x):
     return json.dumps(x)
 
 
-def rng_mc(wd, programs, idx, nested="{}"):
+def rng_measure(wd):
+    """Number of lock sections of each call when it runs alone on the tree under test (RngCalls.tla reads it)."""
+    import subprocess
+    from common import BIN
+    path = os.path.join(wd, "rngcalls.json")
+    p = subprocess.run([BIN["default"], "conc", "--out", os.path.join(wd, "measure.ndjson"), "--measure", path],
+                       capture_output=True, text=True, timeout=600)
+    if p.returncode != 0:
+        raise ToolError(f"conc --measure exited {p.returncode}: {p.stderr[-1500:]}")
+    with open(path) as f:
+        return path, json.load(f)
+
+
+DOCUMENTED_SECTIONS = {"encrypt": 2, "encrypt_big": 2, "header_md": 2}
+
+
+def rng_mc(wd, programs, idx, nested="{}", measured=None):
     mod = os.path.join(wd, f"MC_Rng{idx}.tla")
     with open(mod, "w") as f:
         f.write(f"---- MODULE MC_Rng{idx} ----\nEXTENDS RngConc\nP == {tla_seq(programs)}\n====\n")
@@ -344,7 +363,10 @@ def rng_mc(wd, programs, idx, nested="{}"):
     with open(cfg, "w") as f:
         f.write(f"SPECIFICATION SpecMC\nCONSTANTS\n  Programs <- P\n  Nested = {nested}\n"
                 "INVARIANT Mutex\nINVARIANT Fresh\nINVARIANT PrintSchedule\nPROPERTY Terminates\n")
-    r = tlc(mod, cfg, wd, workers=1, timeout=600, xmx="4g", env_extra={"JAVA_TOOL_OPTIONS": f"-Xss1g -DTLA-Library={SPEC}"})
+    env = {"JAVA_TOOL_OPTIONS": f"-Xss1g -DTLA-Library={SPEC}"}
+    if measured:
+        env["RNGCALLS"] = measured
+    r = tlc(mod, cfg, wd, workers=1, timeout=600, xmx="4g", env_extra=env)
     return r
 
 
@@ -376,8 +398,13 @@ def c19(tier):
     build_harness("default")
     states = trans = 0
     schedules = []
+    measured_path, measured = rng_measure(wd)
+    drift = {c: n for c, n in measured.items() if n != DOCUMENTED_SECTIONS.get(c, 1)}
+    for c, n in drift.items():
+        print(f"MODEL-DRIFT call={c}: takes the RNG lock {n} time(s) when run alone, the specification documents {DOCUMENTED_SECTIONS.get(c, 1)} "
+              "(the interleavings are enumerated for the sections the code has)")
     for i, programs in enumerate(PROGRAM_SETS[tier]):
-        r = rng_mc(wd, programs, i)
+        r = rng_mc(wd, programs, i, measured=measured_path)
         if "Model checking completed. No error" not in r["out"]:
             path = os.path.join(wd, f"rng_mc_{i}.txt")
             with open(path, "w") as f:
@@ -389,7 +416,7 @@ def c19(tier):
         trans += r["generated"]
         schedules += tagged(r["out"], "SCHEDULE")
     # binding self-test: the nested acquisition the comment in PkeAc::encrypt warns about must deadlock in the model
-    st = rng_mc(wd, PROGRAM_SETS["quick"][0], 99, nested='{"encrypt"}')
+    st = rng_mc(wd, PROGRAM_SETS["quick"][0], 99, nested='{"encrypt"}')   # (documented sections: encrypt has two)
     selftest = "Deadlock reached" in st["out"]
     if tier == "quick" and len(schedules) > 400:
         schedules = schedules[::max(1, len(schedules) // 400)]
@@ -402,15 +429,23 @@ def c19(tier):
     cfg = os.path.join(wd, "RngConcTrace.cfg")
     with open(cfg, "w") as f:
         f.write("SPECIFICATION SpecTrace\nCHECK_DEADLOCK FALSE\n")
-    c = tlc(os.path.join(SPEC, "RngConcTrace.tla"), cfg, wd, env_extra={"TRACE": obs}, workers=1, timeout=1500, xmx="4g")
+    c = tlc(os.path.join(SPEC, "RngConcTrace.tla"), cfg, wd, env_extra={"TRACE": obs, "RNGCALLS": measured_path}, workers=1, timeout=1500, xmx="4g")
     if "CHECK-DONE" not in c["out"]:
         raise ToolError("RngConcTrace did not consume the observed events:\n" + c["out"][-3000:])
     viols = []
+    ndrift = 0
     for line in c["out"].splitlines():
         if line.startswith('<<"VIOL"'):
             body = line[line.index(",") + 1:line.rindex(">>")].strip()
             ln, rest = body.split(",", 1)
             what = rest.strip()[1:].split('",', 1)[0]
+            if what.startswith("DRIFT:"):
+                # the code is structured differently from the model (sections per call, realisability of a
+                # schedule): a statement about the model, not about C19
+                ndrift += 1
+                if ndrift <= 3:
+                    print(f"MODEL-DRIFT {what[6:].strip()} (line {ln.strip()} of {os.path.basename(obs)})")
+                continue
             viols.append({"what": what, "cause": what, "detail": {"line": int(ln), "trace": obs}})
     with open(obs) as f:
         recs = [json.loads(l) for l in f]
@@ -427,6 +462,7 @@ def c19(tier):
         "forced_schedules": len([r for r in runs if r["forced"]]), "stress_runs": len([r for r in runs if not r["forced"]]),
         "lock_events": len([r for r in recs if r["k"] == "ev"]),
         "program_sets": PROGRAM_SETS[tier],
+        "lock_sections_measured": measured, "lock_sections_differing_from_documented": drift, "model_drift_events": ndrift,
         "model_selftest_nested_encrypt_deadlocks": selftest,
         "exhaustive": tier == "thorough" or len(schedules) <= 400,
     }
